@@ -374,12 +374,14 @@ func desugar(s string) (string, error) {
 	}
 	out := sb.String()
 	out = reOld.ReplaceAllString(out, "old_(")
+	out = reRangeIdxN.ReplaceAllString(out, "rangeidxn_($1)")
 	out = reRangeIdx.ReplaceAllString(out, "rangeidx_()")
 	return out, nil
 }
 
 var reOld = regexp.MustCompile(`\bold\(`)
 var reRangeIdx = regexp.MustCompile(`\$i\b`)
+var reRangeIdxN = regexp.MustCompile(`\$i\(([0-9]+)\)`)
 
 func desugarIndex(inner string) (string, error) {
 	// slice expressions a:b contain top-level ':'
